@@ -76,12 +76,16 @@ def standard_flow(C, tier, replay=None):
         plans, pstats = _mk_plans(C["plan_sources"], tier, C.get("directed"))
     if not plans:
         raise Inconclusive("no plans generated")
-    traces, deaths = vlib.run_driver(binp, plans, prop, extra_args=C.get("driver_args", ()),
-                                     timeout=C.get("driver_timeout", 1500), env=C.get("driver_env"))
+    traces, deaths = vlib.run_driver_parallel(binp, plans, prop, k=C.get("driver_parallel", 1), extra_args=C.get("driver_args", ()),
+                                              timeout=C.get("driver_timeout", 1500), env=C.get("driver_env"))
     byid = {p["plan"]: p for p in plans}
     tl = [traces[p["plan"]] for p in plans if p["plan"] in traces]
     tmod, tcfg = C["trace"]
-    v = vlib.validate(tmod, tcfg, tl, prop, timeout=C.get("validate_timeout", 1500))
+    venv = C.get("validate_env") or {}
+    isbad = C.get("bad_trace", lambda t: any(isinstance(e, dict) and e.get("op") == "machinery" for e in t["events"]))
+    badtl = [t for t in tl if isbad(t)]
+    tl = [t for t in tl if not isbad(t)]
+    v = vlib.validate(tmod, tcfg, tl, prop, env=venv, timeout=C.get("validate_timeout", 1500))
     violations, known = [], []
     rejected = dict(v["rejected"])
     kfs = vlib.known_findings(prop)
@@ -89,7 +93,7 @@ def standard_flow(C, tier, replay=None):
         names = sorted({k["id"] for k in kfs})
         kf_env = C.get("kf_env", lambda ns: {"KF_" + n: "1" for n in ns})
         rtl = [t for t in tl if t["plan"] in rejected]
-        v2 = vlib.validate(tmod, tcfg, rtl, prop + "-kf", env=kf_env(names), timeout=C.get("validate_timeout", 1500))
+        v2 = vlib.validate(tmod, tcfg, rtl, prop + "-kf", env=dict(venv, **kf_env(names)), timeout=C.get("validate_timeout", 1500))
         for pid in list(rejected):
             if pid in v2["accepted"]:
                 used = v2["kf"].get(pid, [])
@@ -102,6 +106,9 @@ def standard_flow(C, tier, replay=None):
         violations.append((pid, path, "contract rejected the recorded trace at event %s: %s" %
                            (info.get("at"), json.dumps(info.get("event"))[:400])))
     inconclusive = []
+    for t in badtl:
+        path = vlib.save_replay(prop, "machinery", {"property": prop, "plan": byid[t["plan"]], "trace": t})
+        inconclusive.append((t["plan"], path))
     for d in deaths:
         path = vlib.save_replay(prop, "death", {"property": prop, "plan": d["steps"], "rc": d["rc"], "tail": d["tail"]})
         if C.get("death", "violation") == "violation" and C.get("death_filter", lambda d: True)(d):
@@ -146,6 +153,6 @@ def standard_flow(C, tier, replay=None):
     if violations:
         return 1
     if inconclusive:
-        log("inconclusive: process deaths in plans %s" % [p for p, _ in inconclusive])
+        log("inconclusive: machinery problems / process deaths in plans %s" % [p for p, _ in inconclusive][:10])
         return 2
     return 0
